@@ -336,7 +336,7 @@ CRY = dict(contracts=['cry.h'], defines=['WV_USE_SPEC_AES'])
 # proof-build chunk size (DESIGN.md 2.4): 2 blocks = 32 bytes per buffer instead of 16 MiB
 BUFSZ = ['iobuffer__BUF_SZ=2u', 'iobuffer__sum=32u']
 T_VALUES = list(range(1, 17))
-T_QUICK = (1, 2, 16)
+T_QUICK = (1, 2)
 
 
 def cry_obligations():
@@ -394,6 +394,16 @@ void h_cry_c05_header_bytes(void)
     o.append(Ob('cry_prepare_IV_file', PV + ['C01'], enforce='runcrypt__prepare_IV_2', replace=['FileHeader__getIV_2'], **CRY))
     o.append(Ob('cry_prepare_IV_seed', ['C02', 'C18', 'C13'], enforce='runcrypt__prepare_IV_1', replace=['FileHeader__getIV_1', 'FileHeader__getFileHeader'], **CRY))
     o.append(Ob('bg_get_instance', ['C15', 'C01'], enforce='buffergroup__get_instance', **CRY, note='double-checked singleton creation; a fresh instance starts at turn 0, not over'))
+    o.append(Ob('bg_del_instance_null', ['C15'], **CRY, note='del_instance without an instance does nothing', harness='''
+void h_bg_del_instance_null(void)
+{
+  buffergroup__instance = NULL;
+  buffergroup__mtx.held = 0;
+  unsigned live = bufferctrl__live_num;
+  buffergroup__del_instance();
+  __CPROVER_assert(buffergroup__instance == NULL && !buffergroup__mtx.held && bufferctrl__live_num == live, "[C15] del_instance without an instance changes nothing");
+  __CPROVER_assert(0, "WV_CANARY");
+}'''))
     for T in T_VALUES:
         dT = ['WV_USE_SPEC_AES', 'WV_T_FIX=%d' % T] + BUFSZ
         tn = ' (T = %d worker threads)' % T
@@ -414,17 +424,17 @@ void h_cry_c05_header_bytes(void)
         dec = dict(enforce='runcrypt__execute_decrypt', contracts=['cry.h'], defines=dT + ['WV_FACTORY_LIGHT'], unwind=T + 2,
                    replace=['runcrypt__verify', 'runcrypt__prepare_IV_2', 'wv_fseek', 'AesFactory__createCryMaster', 'multicry_master__run_multicry',
                             'runcrypt__release', 'runcrypt__over'])
-        o.append(Ob('cry_execute_encrypt_T%d' % T, ['C02', 'C08', 'C12', 'C13', 'C15'], timeout=900, tier=tier, skip_desc=r'^\[C18', **enc,
+        o.append(Ob('cry_execute_encrypt_T%d' % T, ['C02', 'C08', 'C12', 'C13', 'C15'], timeout=900, tier=tier, skip_desc=r'^\[(C18|C02,C01)', **enc,
                     note='write order header -> body -> tag (last write); output length; tag area written zero then once; input only read; global state fresh again' + tn))
-        o.append(Ob('cry_execute_decrypt_T%d' % T, PV + ['C15', 'C01'], timeout=900, tier=tier, skip_desc=r'^\[C18', **dec,
+        o.append(Ob('cry_execute_decrypt_T%d' % T, PV + ['C15', 'C01'], timeout=900, tier=tier, skip_desc=r'^\[(C18|C02,C01)', **dec,
                     note='same verdict as verify; output written only after a 0 verdict and bounded by the body length; global state fresh again' + tn))
         # C18: the stream-IV assertions written in prepare_AES, discharged in the context of its two callers (same groups as above,
         # only these assertions selected).  The built-in SAT solver is used: the external one runs out of memory on the satisfiable
         # instance of the recorded finding (measured).
         t18 = 'quick' if T in (1, 2) else 'thorough'
-        o.append(Ob('cry_stream_ivs_encrypt_T%d' % T, ['C18'], timeout=2400, tier=t18, only_desc=r'^\[C18', solver='minisat', **enc,
-                    note='in-place assertions of prepare_AES reached from execute_encrypt: stream i starts from IV i (property); from IV i or IV 0 (envelope of the recorded finding)' + tn))
-        o.append(Ob('cry_stream_ivs_decrypt_T%d' % T, ['C18'], timeout=2400, tier=t18, only_desc=r'^\[C18', solver='minisat', **dec,
+        o.append(Ob('cry_stream_ivs_encrypt_T%d' % T, ['C18', 'C02', 'C01'], timeout=2400, tier=t18, only_desc=r'^\[(C18|C02,C01)', solver='minisat', **enc,
+                    note='in-place assertions of prepare_AES reached from execute_encrypt: stream object of the class for (direction, mode) with the user key [C02]; stream i starts from IV i (C18 property); from IV i or IV 0 (envelope of the recorded finding)' + tn))
+        o.append(Ob('cry_stream_ivs_decrypt_T%d' % T, ['C18', 'C01'], timeout=2400, tier=t18, only_desc=r'^\[(C18|C02,C01)', solver='minisat', **dec,
                     note='the same assertions reached from execute_decrypt' + tn))
     return o
 
